@@ -23,6 +23,7 @@ fn main() {
             sandbox::worker_main(&args[2], core::Tier::parse(&args[3]), args[4].parse().unwrap(), &args[5])
         }
         Some("case") if args.len() >= 6 => sandbox::case_main(&args[2], core::Tier::parse(&args[3]), &args[4], &args[5]),
+        Some("aux") if args.len() >= 3 => sandbox::aux_main(&args[2], &args[3..]),
         Some("list") => {
             for id in props::ALL {
                 println!("{id}");
